@@ -138,6 +138,86 @@ let ipv6_parse_op kv =
      else "")
     (show_o ipv6_show (ipv6_parse bs))
 
+(* ---------------- ICMPv4 ---------------- *)
+let show_oe (f : 'a -> string) (x : 'a outcome) : string =
+  match x with Ok a -> f a | Err e -> if int_of_z e = int_of_z wb_delegated then "DELEGATED" else "Err" | Panic -> "PANIC"
+let ipv4_fields pre r = Printf.sprintf "%ssrc=%s %sdst=%s %sproto=%s %splen=%s %shop=%s"
+  pre (hex_of_bytes r.ipv4_src) pre (hex_of_bytes r.ipv4_dst) pre (sz r.ipv4_proto) pre (sz r.ipv4_payload_len) pre (sz r.ipv4_hop_limit)
+let icmpv4_show r = match r with
+  | Icmp4EchoRequest (i, s, d) -> Printf.sprintf "Ok kind=0 ident=%s seq=%s data=%s" (sz i) (sz s) (show_bytes d)
+  | Icmp4EchoReply (i, s, d) -> Printf.sprintf "Ok kind=1 ident=%s seq=%s data=%s" (sz i) (sz s) (show_bytes d)
+  | Icmp4DstUnreachable (c, h, d) -> Printf.sprintf "Ok kind=2 reason=%s %s data=%s" (sz c) (ipv4_fields "h" h) (show_bytes d)
+  | Icmp4TimeExceeded (c, h, d) -> Printf.sprintf "Ok kind=3 reason=%s %s data=%s" (sz c) (ipv4_fields "h" h) (show_bytes d)
+let icmpv4_repr_of kv =
+  let hdr () = { ipv4_src = getb kv "hsrc"; ipv4_dst = getb kv "hdst"; ipv4_proto = geti kv "hproto";
+                 ipv4_payload_len = geti kv "hplen"; ipv4_hop_limit = geti kv "hhop" } in
+  match get kv "kind" with
+  | "0" -> Icmp4EchoRequest (geti kv "ident", geti kv "seq", getb kv "data")
+  | "1" -> Icmp4EchoReply (geti kv "ident", geti kv "seq", getb kv "data")
+  | "2" -> Icmp4DstUnreachable (geti kv "reason", hdr (), getb kv "data")
+  | _ -> Icmp4TimeExceeded (geti kv "reason", hdr (), getb kv "data")
+let icmpv4_emit_op kv =
+  let res = icmpv4_emit wb_plain_fill (getbool kv "tx") (getbool kv "tx4") (icmpv4_repr_of kv) (getb kv "buf") in
+  Printf.sprintf "ret %s | %s" (ob res)
+    (match res with Ok bs -> show_o icmpv4_show (icmpv4_parse wb_plain_ok (getbool kv "rx") bs) | _ -> "-")
+let icmpv4_parse_op kv =
+  let bs = getb kv "bytes" in
+  let c = icmpv4_check_len bs in
+  Printf.sprintf "chk %s%s parse %s" (chk c)
+    (if is_ok c then Printf.sprintf " acc type=%s code=%s ck=%s ident=%s seq=%s hlen=%s data=%s vck=%s"
+       (oz (icmpv4_msg_type bs)) (oz (icmpv4_msg_code bs)) (oz (icmpv4_checksum bs)) (oz (icmpv4_echo_ident bs))
+       (oz (icmpv4_echo_seq_no bs)) (oz (icmpv4_header_len bs)) (ob (icmpv4_data bs))
+       (if icmpv4_verify_checksum wb_plain_ok bs then "1" else "0")
+     else "")
+    (show_o icmpv4_show (icmpv4_parse wb_plain_ok (getbool kv "rx") bs))
+
+(* ---------------- ICMPv6 ---------------- *)
+let icmpv6_proto = z_of_int 58
+let ipv6_fields pre r = Printf.sprintf "%ssrc=%s %sdst=%s %snxt=%s %splen=%s %shop=%s"
+  pre (hex_of_bytes r.ipv6_src) pre (hex_of_bytes r.ipv6_dst) pre (sz r.ipv6_nxt) pre (sz r.ipv6_payload_len) pre (sz r.ipv6_hop_limit)
+let icmpv6_show r = match r with
+  | Icmp6DstUnreachable (c, h, d) -> Printf.sprintf "Ok kind=0 reason=%s %s data=%s" (sz c) (ipv6_fields "h" h) (show_bytes d)
+  | Icmp6PktTooBig (m, h, d) -> Printf.sprintf "Ok kind=1 word=%s %s data=%s" (sz m) (ipv6_fields "h" h) (show_bytes d)
+  | Icmp6TimeExceeded (c, h, d) -> Printf.sprintf "Ok kind=2 reason=%s %s data=%s" (sz c) (ipv6_fields "h" h) (show_bytes d)
+  | Icmp6ParamProblem (c, p, h, d) -> Printf.sprintf "Ok kind=3 reason=%s word=%s %s data=%s" (sz c) (sz p) (ipv6_fields "h" h) (show_bytes d)
+  | Icmp6EchoRequest (i, s, d) -> Printf.sprintf "Ok kind=4 ident=%s seq=%s data=%s" (sz i) (sz s) (show_bytes d)
+  | Icmp6EchoReply (i, s, d) -> Printf.sprintf "Ok kind=5 ident=%s seq=%s data=%s" (sz i) (sz s) (show_bytes d)
+let icmpv6_repr_of kv =
+  let hdr () = { ipv6_src = getb kv "hsrc"; ipv6_dst = getb kv "hdst"; ipv6_nxt = geti kv "hproto";
+                 ipv6_payload_len = geti kv "hplen"; ipv6_hop_limit = geti kv "hhop" } in
+  match get kv "kind" with
+  | "0" -> Icmp6DstUnreachable (geti kv "reason", hdr (), getb kv "data")
+  | "1" -> Icmp6PktTooBig (geti kv "word", hdr (), getb kv "data")
+  | "2" -> Icmp6TimeExceeded (geti kv "reason", hdr (), getb kv "data")
+  | "3" -> Icmp6ParamProblem (geti kv "reason", geti kv "word", hdr (), getb kv "data")
+  | "4" -> Icmp6EchoRequest (geti kv "ident", geti kv "seq", getb kv "data")
+  | _ -> Icmp6EchoReply (geti kv "ident", geti kv "seq", getb kv "data")
+let icmpv6_ctx kv =
+  let src = getb kv "src" and dst = getb kv "dst" in
+  (wb_pseudo_ok src dst icmpv6_proto, wb_pseudo_fill src dst icmpv6_proto)
+let icmpv6_emit_op kv =
+  let (sok, sfill) = icmpv6_ctx kv in
+  let res = icmpv6_emit sfill (getbool kv "tx") (icmpv6_repr_of kv) (getb kv "buf") in
+  Printf.sprintf "ret %s | %s" (ob res)
+    (match res with Ok bs -> show_oe icmpv6_show (icmpv6_parse sok (getbool kv "rx") bs) | _ -> "-")
+let icmpv6_parse_op kv =
+  let (sok, _) = icmpv6_ctx kv in
+  let bs = getb kv "bytes" in
+  let c = icmpv6_check_len bs in
+  let ty = match icmpv6_msg_type bs with Ok t -> int_of_z t | _ -> -1 in
+  Printf.sprintf "chk %s%s parse %s" (chk c)
+    (if is_ok c then Printf.sprintf " acc type=%s code=%s ck=%s hlen=%s payload=%s vck=%s%s"
+       (oz (icmpv6_msg_type bs)) (oz (icmpv6_msg_code bs)) (oz (icmpv6_checksum bs))
+       (oz (icmpv6_header_len bs)) (ob (icmpv6_payload bs))
+       (if icmpv6_verify_checksum sok bs then "1" else "0")
+       (* accessors that apply to the packet's own message type *)
+       (if ty = 128 || ty = 129 then Printf.sprintf " ident=%s seq=%s" (oz (icmpv6_echo_ident bs)) (oz (icmpv6_echo_seq_no bs))
+        else if ty = 2 then Printf.sprintf " mtu=%s" (oz (icmpv6_pkt_too_big_mtu bs))
+        else if ty = 4 then Printf.sprintf " ptr=%s" (oz (icmpv6_param_problem_ptr bs))
+        else "")
+     else "")
+    (show_oe icmpv6_show (icmpv6_parse sok (getbool kv "rx") bs))
+
 (* ---------------- dispatch ---------------- *)
 let dispatch : (string * ((string * string) list -> string) * ((string * string) list -> string)) list = [
   ("eth", eth_emit_op, eth_parse_op);
@@ -145,6 +225,8 @@ let dispatch : (string * ((string * string) list -> string) * ((string * string)
   ("udp", udp_emit_op, udp_parse_op);
   ("ipv4", ipv4_emit_op, ipv4_parse_op);
   ("ipv6", ipv6_emit_op, ipv6_parse_op);
+  ("icmpv4", icmpv4_emit_op, icmpv4_parse_op);
+  ("icmpv6", icmpv6_emit_op, icmpv6_parse_op);
 ]
 
 let () =
